@@ -256,7 +256,7 @@ def main():
                             "n_variants": len(c["variants"]), "outcomes": sorted(set(r["outcome"] for r in res))})
     # two small programs: (i) a decorated helper WITHOUT array annotations binds an axis name in its body that its caller also uses --
     # the caller's own consistent assignment decides; (ii) an annotation alias shared with a decorated generator function still checks
-    scen = vf.impl("impl_wrap.py", {"scenarios": [[nm, c] for nm in ("helper_binds", "alias_generator", "union_greedy") for c in ("typeguard", "beartype")]}, timeout=600)
+    scen = vf.impl("impl_wrap.py", {"scenarios": [[nm, c] for nm in ("helper_binds", "alias_generator", "union_greedy", "wraps_metadata", "truediv") for c in ("typeguard", "beartype")]}, timeout=600)
     for sc in scen:
         ncalls += len(sc["wrapped"])
         want = sc.get("expected", sc["plain"])
